@@ -37,6 +37,10 @@ var c06Commands = []struct {
 	{"replace all (at least 1 digit) = d with d", true},                   // identical through a capture
 	{"replace all caseless 'ab' with 'ab'", true},                         // identical for some matches only
 	{"replace all 'b' with 'b' 'b'", true},                                // identical prefix, then longer
+	{"replace all 'ab' with neverBoundName", true},                      // a with-list that yields no value at all: the match is deleted
+	{"replace all 'a' or ('b' = v) with v", true},                         // bound for some matches only
+	{"replace all at least 1 ('b' = v) named grp with grp", true},         // a map-valued name contributes nothing
+	{"replace all 'b' (maybe (digit = d)) with d", true},                  // capture inside a skipped optional
 	{"find all 'ab'", false},
 	{"find all at least 1 letter", false},
 }
@@ -156,7 +160,7 @@ func C06(r *drv.Run) {
 		n = 9000
 		ncli = 250
 	}
-	r.Rule = "RunFiles on scratch directories: 18 commands (replacement shorter / longer / empty / identical to the matched text, zero matches, adjacent matches, match at offset 0 and at EOF, captures, a transform, two commands over the same files, find commands) x 1..2 files of sizes 0, 1, 7, 40, 200, 4095..4097, 8191, 8193, 10 000 x {NOTHING, NEW, OVERWRITE}, plus large files (up to ~400 KB) whose unmatched stretches before, between and after 1..3 matches are exactly 16384 / 32768 / 65536 / 131072 bytes or one byte off, with stale longer .vored files and bystander files present. Oracle: directory snapshot (type, size, mode, SHA-256, inode) before/after must differ by exactly the change set the mode allows, and the written text must equal the splice of the original bytes with the replacements of the in-memory run at its spans; every file the library opens for writing (hook H5) must be in the allowed set. Sessions: 3..6 steps in ONE worker process over the same two paths - a file is rewritten between steps (often with different bytes of the SAME size), then one or two literal replace commands run in a random mode; the expected content of every file after every step comes from a harness-side model (sequential ReplaceAll for OVERWRITE, last command on the unchanged source for NEW), so nothing remembered from an earlier call or command may leak into a later one. Thorough tier additionally drives the built CLI under strace and checks every path opened for writing/creating/truncating, renamed, unlinked or truncated. Non-trivial = a replace run with >= 1 match in mode NEW or OVERWRITE whose output was verified; distinct by (command, layout, mode)."
+	r.Rule = fmt.Sprint("RunFiles on scratch directories: ", len(c06Commands), " commands") + " (replacement shorter / longer / empty / identical to the matched text, a with-list of names that are unbound for all or some matches or map-valued (no value: the match is deleted), zero matches, adjacent matches, match at offset 0 and at EOF, captures, a transform, two commands over the same files, find commands) x 1..2 files of sizes 0, 1, 7, 40, 200, 4095..4097, 8191, 8193, 10 000 x {NOTHING, NEW, OVERWRITE}, plus large files (up to ~400 KB) whose unmatched stretches before, between and after 1..3 matches are exactly 16384 / 32768 / 65536 / 131072 bytes or one byte off, with stale longer .vored files and bystander files present. Oracle: directory snapshot (type, size, mode, SHA-256, inode) before/after must differ by exactly the change set the mode allows, and the written text must equal the splice of the original bytes with the replacements of the in-memory run at its spans; every file the library opens for writing (hook H5) must be in the allowed set. Sessions: 3..6 steps in ONE worker process over the same two paths - a file is rewritten between steps (often with different bytes of the SAME size), then one or two literal replace commands run in a random mode; the expected content of every file after every step comes from a harness-side model (sequential ReplaceAll for OVERWRITE, last command on the unchanged source for NEW), so nothing remembered from an earlier call or command may leak into a later one. Thorough tier additionally drives the built CLI under strace and checks every path opened for writing/creating/truncating, renamed, unlinked or truncated. Non-trivial = a replace run with >= 1 match in mode NEW or OVERWRITE whose output was verified; distinct by (command, layout, mode)."
 	r.Assumptions = []string{
 		"the spans and replacements spliced are those of Run on the same bytes (C01/C05/C07 judge those)",
 		"with two replace commands in one source each command rewrites from the file as the previous command left it (OVERWRITE) or from the unchanged source (NEW): the expected text is computed accordingly",
